@@ -31,7 +31,7 @@ LEVEL_NOTE = "Trusted: futmon.check; CPython sys.monitoring; interleavings limit
 FUNCS = {
     "FutureResult.execute": ("executor", "worker"),
     "FutureResult.__notify": ("executor", "worker", "registrar"),
-    "FutureResult.set_callback": ("registrar",),
+    "FutureResult.set_callback": ("registrar",),     # (vf-registrar and vf-registrar2 share the role)
     "FutureResult.done": ("observer",),
     "FutureResult.result": ("observer",),
     "EventData.set": ("executor", "worker"),
